@@ -39,6 +39,9 @@ type PkgCfg struct {
 	Only []string `json:"only"`
 	// NoSched: file base names exempt from go/chan/map rewriting (imports still switched)
 	NoSchedFiles []string `json:"nosched_files"`
+	// MemPoints: file base names whose builtin append/copy calls get a scheduling point after them
+	// (vsched.Mem): exposes windows between an unsynchronised write into shared memory and its use
+	MemPoints []string `json:"mem_points"`
 }
 
 type Cfg struct {
@@ -225,6 +228,9 @@ func doPkg(cfg *Cfg, pc *PkgCfg, pkgs []*packages.Package, overlay map[string]st
 		}
 		p := infos[fn]
 		r := &rewriter{fset: p.Fset, info: p.TypesInfo, file: files[fn], pc: pc, sched: pc.Sched && !nosched[base], constsSeen: constsSeen}
+		for _, m := range pc.MemPoints {
+			r.mem = r.mem || (m == base && r.sched)
+		}
 		if err := r.run(); err != nil {
 			return fmt.Errorf("%s: %v", base, err)
 		}
@@ -271,6 +277,7 @@ type rewriter struct {
 	file       *ast.File
 	pc         *PkgCfg
 	sched      bool
+	mem        bool
 	changed    bool
 	needs      map[string]bool
 	tmp        int
@@ -474,6 +481,12 @@ func (r *rewriter) post(c *astutil.Cursor) bool {
 			c.Replace(call(sel(r.use("vchan"), "Recv"), n.X))
 		}
 	case *ast.CallExpr:
+		if id, ok := n.Fun.(*ast.Ident); ok && r.mem && (id.Name == "append" || id.Name == "copy") {
+			if _, isBuiltin := r.info.Uses[id].(*types.Builtin); isBuiltin {
+				c.Replace(call(sel(r.use("vsched"), "Mem"), n))
+				return true
+			}
+		}
 		if id, ok := n.Fun.(*ast.Ident); ok && len(n.Args) == 1 {
 			if _, isBuiltin := r.info.Uses[id].(*types.Builtin); isBuiltin {
 				switch id.Name {
